@@ -32,7 +32,8 @@ theorem C14_facts :
         "Load=Lock;defer-Unlock;return bwu.status.Load(bwu.statusFileName);bwu.status.Load(bwu.statusFileName)",
         "UpdateFullStatus=Lock;defer-Unlock;bwu.status.UpdateFullStatus(bwu.statusFileName,statusFunc)",
         "UpdateBasicStatus=Lock;defer-Unlock;bwu.status.UpdateBasicStatus(bwu.statusFileName,state,detail,stdoutSize)"]
-    ∧ Receptor.Facts.st_io = "true true true true" := by decide +kernel
+    ∧ Receptor.Facts.st_io = "true true true true"
+    ∧ Receptor.Facts.st_removals = "stdio_utils.go:os.RemoveAll(path)" := by decide +kernel
 
 /-- the state reached from a fresh unit (`r0` stored) after an arbitrary schedule -/
 def reach (r0 : α) (progs : List (List (Op α))) (sched : List Nat) : St α := run (init r0 progs) sched
